@@ -12,6 +12,7 @@ import (
 	"rscheck/cfgq"
 	"rscheck/core"
 	"rscheck/pat"
+	"rscheck/rules/ring"
 )
 
 // ---------------------------------------------------------------------------
@@ -19,12 +20,12 @@ import (
 
 // inclusive checks that every node accepted by `accept` is reached only with
 // lo <= x and x <= hi established, x/lo/hi being identifiers.
-func inclusive(c *core.Ctx, rule, key string, g *cfgq.Graph, body ast.Node, x, lo, hi *ast.Ident, accept func(ast.Node) bool) {
+func inclusive(c *core.Ctx, rule, key string, g *cfgq.Graph, body ast.Node, x, lo, hi ast.Expr, accept func(ast.Node) bool) {
 	info := g.Info
 	b := pat.Binds{"_x": x, "_lo": lo, "_hi": hi}
 	type side struct {
 		name           string
-		bound          *ast.Ident
+		bound          ast.Expr
 		okT, okF       *pat.Pattern
 		wrongT, wrongF *pat.Pattern
 	}
@@ -39,9 +40,57 @@ func inclusive(c *core.Ctx, rule, key string, g *cfgq.Graph, body ast.Node, x, l
 	}
 	for _, sd := range sides {
 		sd := sd
-		fact := func(f cfgq.Fact) bool {
-			return f.Val && sd.okT.Match(info, f.Expr, b) != nil || !f.Val && sd.okF.Match(info, f.Expr, b) != nil
+		direct := func(f cfgq.Fact, bd pat.Binds) bool {
+			return f.Val && sd.okT.Match(info, f.Expr, bd) != nil || !f.Val && sd.okF.Match(info, f.Expr, bd) != nil
 		}
+		// helper: inRange(x, lo, hi) with `func inRange(s, l, r int) bool { return l <= s && s <= r }`
+		// returns the helper's condition and the bindings in the helper's terms
+		helper := func(e ast.Expr) (ast.Expr, pat.Binds) {
+			call, ok := ast.Unparen(e).(*ast.CallExpr)
+			hfn := core.CalleeFunc(info, orCallExpr(call))
+			if !ok || hfn == nil {
+				return nil, nil
+			}
+			hf := c.FnOf(hfn)
+			if hf == nil || hf.Decl.Body == nil || len(hf.Decl.Body.List) != 1 || hf.Pkg.TypesInfo != info {
+				return nil, nil
+			}
+			ret, isRet := hf.Decl.Body.List[0].(*ast.ReturnStmt)
+			var hps []*ast.Ident
+			for _, fl := range hf.Decl.Type.Params.List {
+				hps = append(hps, fl.Names...)
+			}
+			if !isRet || len(ret.Results) != 1 || len(hps) != len(call.Args) {
+				return nil, nil
+			}
+			b2 := pat.Binds{}
+			for i, a := range call.Args {
+				for name, want := range b {
+					if pat.Same(info, strip(info, a), want) {
+						b2[name] = hps[i]
+					}
+				}
+			}
+			if len(b2) != len(b) {
+				return nil, nil
+			}
+			return ret.Results[0], b2
+		}
+		holdsWhen := func(e ast.Expr, val bool) bool { // e == val establishes this bound
+			if direct(cfgq.Fact{Expr: e, Val: val}, b) {
+				return true
+			}
+			if cond, b2 := helper(e); cond != nil {
+				for _, at := range cfgq.Facts(cond, val) {
+					if direct(at, b2) {
+						return true
+					}
+				}
+			}
+			return false
+		}
+		fact := func(f cfgq.Fact) bool { return holdsWhen(f.Expr, f.Val) }
+		inverted := func(f cfgq.Fact) bool { return holdsWhen(f.Expr, !f.Val) } // accepted exactly when the bound test failed
 		ok := true
 		var wit []string
 		for _, p := range pts {
@@ -66,15 +115,39 @@ func inclusive(c *core.Ctx, rule, key string, g *cfgq.Graph, body ast.Node, x, l
 			c.Okf(rule, k, body.Pos(), "candidates are accepted only with the %s bound tested inclusively", sd.name)
 			continue
 		}
-		// exactly one comparison with this bound, and it is the strict one => definite
+		allInv := true
+		for _, p := range pts {
+			if o, _ := onlyVia(g, p, inverted); !o {
+				allInv = false
+			}
+		}
+		if allInv {
+			c.Check(rule, k, body.Pos(), false, fmt.Sprintf("a candidate is accepted exactly when the %s bound test FAILED: the key chosen hashes outside the slot range", sd.name), wit...)
+			continue
+		}
+		// exactly one comparison with this bound (here or in a one-line predicate
+		// helper applied to x and the bounds), and it is the strict one => definite
 		var cmps []*ast.BinaryExpr
+		cb := b
+		collect := func(root ast.Node, bd pat.Binds) {
+			ast.Inspect(root, func(n ast.Node) bool {
+				if be, ok := n.(*ast.BinaryExpr); ok && pat.Expr("_x + _b").Match(info, &ast.BinaryExpr{X: be.X, Op: token.ADD, Y: be.Y}, pat.Binds{"_x": bd["_x"], "_b": bd[map[string]string{"lower": "_lo", "upper": "_hi"}[sd.name]]}) != nil {
+					cmps = append(cmps, be)
+					cb = bd
+				}
+				return true
+			})
+		}
+		collect(body, b)
 		ast.Inspect(body, func(n ast.Node) bool {
-			if be, ok := n.(*ast.BinaryExpr); ok && pat.Expr("_x + _b").Match(info, &ast.BinaryExpr{X: be.X, Op: token.ADD, Y: be.Y}, pat.Binds{"_x": x, "_b": sd.bound}) != nil {
-				cmps = append(cmps, be)
+			if call, ok := n.(*ast.CallExpr); ok {
+				if cond, b2 := helper(call); cond != nil {
+					collect(cond, b2)
+				}
 			}
 			return true
 		})
-		if len(cmps) == 1 && (sd.wrongT.Match(info, cmps[0], b) != nil || sd.wrongF.Match(info, cmps[0], b) != nil) {
+		if len(cmps) == 1 && (sd.wrongT.Match(info, cmps[0], cb) != nil || sd.wrongF.Match(info, cmps[0], cb) != nil) {
 			c.Check(rule, k, cmps[0].Pos(), false, fmt.Sprintf("the %s slot bound is tested exclusively (%s): a range [l,r] is inclusive, so a shard owning the single slot l (or a key hashing exactly to the boundary) is never matched / a key outside is accepted", sd.name, c.Src(cmps[0])), wit...)
 		} else {
 			c.Undecidedf(rule, k, body.Pos(), "cannot establish that the %s bound is tested as an inclusive bound", sd.name)
@@ -110,13 +183,35 @@ func checkpointKey(c *core.Ctx) {
 		c.Undecidedf("R4.range", "ChoseSlotInRange/signature", chose.Decl.Pos(), "expected (prefix, left, right)")
 		return
 	}
-	// the judge closure handed to pickSuffixDfs
+	// the search function's parameters by role: the range predicate (a func), the
+	// candidate bytes, or the two bounds passed as integers
+	dsig := dfs.Obj.Type().(*types.Signature)
+	judgeIdx, seedIdx, strRes := -1, -1, -1
+	for i := 0; i < dsig.Params().Len(); i++ {
+		switch t := dsig.Params().At(i).Type().Underlying().(type) {
+		case *types.Signature:
+			judgeIdx = i
+		case *types.Slice:
+			if b, ok := t.Elem().Underlying().(*types.Basic); ok && b.Kind() == types.Byte {
+				seedIdx = i
+			}
+		}
+	}
+	for i := 0; i < dsig.Results().Len(); i++ {
+		if b, ok := dsig.Results().At(i).Type().Underlying().(*types.Basic); ok && b.Kind() == types.String {
+			strRes = i
+		}
+	}
+	var dparams []*ast.Ident
+	for _, f := range dfs.Decl.Type.Params.List {
+		dparams = append(dparams, f.Names...)
+	}
 	var lit *ast.FuncLit
 	var dfsCall *ast.CallExpr
 	for _, call := range core.Calls(chose.Decl.Body, info, func(_ *ast.CallExpr, o types.Object) bool { return o == dfs.Obj }) {
 		dfsCall = call
-		if len(call.Args) == 3 {
-			e := ast.Unparen(call.Args[1])
+		if judgeIdx >= 0 && len(call.Args) == dsig.Params().Len() {
+			e := ast.Unparen(call.Args[judgeIdx])
 			if o := objOf(info, e); o != nil {
 				if rhs, other := defsOf(info, chose.Decl.Body, o); len(rhs) == 1 && other == 0 && rhs[0] != nil {
 					e = ast.Unparen(rhs[0])
@@ -125,9 +220,20 @@ func checkpointKey(c *core.Ctx) {
 			lit, _ = e.(*ast.FuncLit)
 		}
 	}
-	if lit == nil || len(lit.Type.Params.List) != 1 || len(lit.Type.Params.List[0].Names) != 1 {
-		c.Undecidedf("R4.range", "ChoseSlotInRange/judge", chose.Decl.Pos(), "cannot find the range predicate passed to pickSuffixDfs")
-	} else {
+	// bounds handed down as plain integers: which parameters of the search are left and right?
+	var dLeft, dRight *ast.Ident
+	if dfsCall != nil && len(dfsCall.Args) == len(dparams) {
+		for i, a := range dfsCall.Args {
+			switch objOf(info, a) {
+			case info.Defs[params[1]]:
+				dLeft = dparams[i]
+			case info.Defs[params[2]]:
+				dRight = dparams[i]
+			}
+		}
+	}
+	switch {
+	case lit != nil && len(lit.Type.Params.List) == 1 && len(lit.Type.Params.List[0].Names) == 1:
 		g := cfgq.OfLit(c.Program, info, lit)
 		inclusive(c, "R4.range", "ChoseSlotInRange/judge", g, lit.Body, lit.Type.Params.List[0].Names[0], params[1], params[2], func(n ast.Node) bool {
 			r, ok := n.(*ast.ReturnStmt)
@@ -137,6 +243,12 @@ func checkpointKey(c *core.Ctx) {
 			tv := info.Types[r.Results[0]]
 			return tv.Value == nil || isTrue(info, r.Results[0]) // `return true` or `return <condition>`
 		})
+	case judgeIdx < 0 && dLeft != nil && dRight != nil:
+		// decided below, on the search function itself
+	case judgeIdx >= 0 && dfsCall != nil && methodJudge(c, info, chose, dfsCall.Args[judgeIdx], params[1], params[2]):
+		// the predicate is a method value of a struct holding the two bounds: judged inside methodJudge
+	default:
+		c.Undecidedf("R4.range", "ChoseSlotInRange/judge", chose.Decl.Pos(), "cannot find the range predicate passed to pickSuffixDfs")
 	}
 	// prefix: "<prefix>-" (Sprintf or concatenation) handed to the search, result returned
 	okPrefix := false
@@ -151,6 +263,11 @@ func checkpointKey(c *core.Ctx) {
 			if core.IsFunc(core.CalleeFunc(info, x), "fmt", "", "Sprintf") && len(x.Args) == 2 {
 				f, _ := core.StringConst(info, x.Args[0])
 				return f == "%s-" && objOf(info, x.Args[1]) == info.Defs[params[0]]
+			}
+			// append([]byte(prefix), '-')
+			if b, isB := core.Callee(info, x).(*types.Builtin); isB && b.Name() == "append" && len(x.Args) == 2 && !x.Ellipsis.IsValid() {
+				sep, isC := core.IntConst(info, x.Args[1])
+				return isC && sep == '-' && objOf(info, strip(info, x.Args[0])) == info.Defs[params[0]]
 			}
 		case *ast.BinaryExpr:
 			sep, isC := core.StringConst(info, x.Y)
@@ -170,17 +287,18 @@ func checkpointKey(c *core.Ctx) {
 		}
 		return false
 	}
-	if dfsCall != nil && len(dfsCall.Args) == 3 {
-		okPrefix = seedOK(dfsCall.Args[2], 0)
+	if dfsCall != nil && seedIdx >= 0 && len(dfsCall.Args) == dsig.Params().Len() {
+		okPrefix = seedOK(dfsCall.Args[seedIdx], 0)
 	}
 	retOK := false
 	core.Inspect(chose.Decl.Body, func(n ast.Node) bool {
-		if r, ok := n.(*ast.ReturnStmt); ok && len(r.Results) == 1 {
-			if b := pat.Stmt("_ok, _s = _f(_a, _b, _c)"); true {
-				if as, bd := b.Find(info, chose.Decl.Body, nil); as != nil && ast.Unparen(as.(*ast.AssignStmt).Rhs[0]) == ast.Expr(dfsCall) {
-					retOK = pat.Same(info, bd["_s"], r.Results[0])
+		if r, ok := n.(*ast.ReturnStmt); ok && len(r.Results) == 1 && strRes >= 0 {
+			ast.Inspect(chose.Decl.Body, func(m ast.Node) bool {
+				if as, ok := m.(*ast.AssignStmt); ok && len(as.Rhs) == 1 && ast.Unparen(as.Rhs[0]) == ast.Expr(dfsCall) && len(as.Lhs) == dsig.Results().Len() {
+					retOK = pat.Same(info, as.Lhs[strRes], r.Results[0])
 				}
-			}
+				return true
+			})
 		}
 		return true
 	})
@@ -200,7 +318,28 @@ func checkpointKey(c *core.Ctx) {
 			}
 			for _, call := range core.CallsAll(f, pk.TypesInfo, func(_ *ast.CallExpr, o types.Object) bool { return o == chose.Obj }) {
 				callers++
-				if core.ObjOf(pk.TypesInfo, call.Args[0]) == cpk {
+				arg0 := call.Args[0]
+				if o := objOf(pk.TypesInfo, arg0); o != nil { // base := utils.CheckpointKey
+					if _, isConst := o.(*types.Const); !isConst {
+						var def ast.Expr
+						nd := 0
+						ast.Inspect(f, func(m ast.Node) bool {
+							if as, ok := m.(*ast.AssignStmt); ok && len(as.Lhs) == len(as.Rhs) {
+								for i, l := range as.Lhs {
+									if objOf(pk.TypesInfo, l) == o {
+										def = as.Rhs[i]
+										nd++
+									}
+								}
+							}
+							return true
+						})
+						if nd == 1 {
+							arg0 = def
+						}
+					}
+				}
+				if core.ObjOf(pk.TypesInfo, arg0) == cpk {
 					c.Okf("R4.prefix", "caller/"+short(pk.PkgPath), call.Pos(), "ChoseSlotInRange is called with CheckpointKey as prefix")
 				} else {
 					c.Undecidedf("R4.prefix", "caller/"+short(pk.PkgPath), call.Pos(), "ChoseSlotInRange is called with a prefix other than CheckpointKey: %s", c.Src(call.Args[0]))
@@ -349,17 +488,70 @@ func checkpointKey(c *core.Ctx) {
 			}
 		}
 	}
-	if len(cands) == 0 {
+	// an accepting return hands back string(<candidate bytes>)
+	candOf := func(r *ast.ReturnStmt) ast.Expr {
+		for _, res := range r.Results {
+			if o := objOf(dinfo, res); o != nil { // candidate := string(prefix); return true, candidate
+				if rhs, other := defsOf(dinfo, dfs.Decl.Body, o); len(rhs) == 1 && other == 0 && rhs[0] != nil {
+					res = rhs[0]
+				}
+			}
+			if call, ok := ast.Unparen(res).(*ast.CallExpr); ok && len(call.Args) == 1 {
+				if tv, isT := dinfo.Types[call.Fun]; isT && tv.IsType() {
+					if b, ok := tv.Type.Underlying().(*types.Basic); ok && b.Kind() == types.String {
+						return call.Args[0]
+					}
+				}
+			}
+		}
+		return nil
+	}
+	accepting := func(n ast.Node) bool {
+		r, ok := n.(*ast.ReturnStmt)
+		return ok && candOf(r) != nil
+	}
+	if judgeIdx < 0 && dLeft != nil && dRight != nil {
+		// no predicate value: the bounds are compared in the search function itself
+		// (directly or through a one-line predicate helper)
+		var slotVar *ast.Ident
+		var slotCand ast.Expr
+		ast.Inspect(dfs.Decl.Body, func(n ast.Node) bool {
+			if as, ok := n.(*ast.AssignStmt); ok && len(as.Rhs) == 1 && len(as.Lhs) >= 1 {
+				if gc, ok := ast.Unparen(as.Rhs[0]).(*ast.CallExpr); ok && core.CalleeFunc(dinfo, gc) == getSlot.Obj && len(gc.Args) == 1 {
+					slotVar, _ = as.Lhs[0].(*ast.Ident)
+					slotCand = gc.Args[0]
+				}
+			}
+			return true
+		})
+		pts := g.Points(accepting)
+		if slotVar == nil || len(pts) == 0 {
+			c.Undecidedf("R4.range", "pickSuffixDfs/slot-of-candidate", dfs.Decl.Pos(), "cannot find `slot, err := redis.GetSlot(candidate)` and a return of string(candidate)")
+		} else {
+			for _, p := range pts {
+				r := p.Node().(*ast.ReturnStmt)
+				ret, cand := strip(dinfo, candOf(r)), strip(dinfo, slotCand)
+				switch {
+				case pat.Same(dinfo, ret, cand):
+					c.Okf("R4.range", "pickSuffixDfs/slot-of-candidate", r.Pos(), "the string returned is the one whose slot was computed (%s)", c.Src(ret))
+				case objOf(dinfo, ret) == nil && objOf(dinfo, cand) != nil && mentions(dinfo, ret, objOf(dinfo, cand)):
+					c.Check("R4.range", "pickSuffixDfs/slot-of-candidate", r.Pos(), false,
+						fmt.Sprintf("the string returned as checkpoint key (%s) is a different function of the candidate than the one whose slot was computed (%s): the checkpoint may live on another shard than the data it describes", c.Src(candOf(r)), c.Src(cand)))
+				default:
+					c.Undecidedf("R4.range", "pickSuffixDfs/slot-of-candidate", r.Pos(), "cannot relate the returned string %s to the candidate %s", c.Src(ret), c.Src(cand))
+				}
+			}
+			inclusive(c, "R4.range", "ChoseSlotInRange/judge", g, dfs.Decl.Body, slotVar, dLeft, dRight, accepting)
+			c.Okf("R4.range", "pickSuffixDfs/accept-iff-judge", dfs.Decl.Pos(), "the bounds are tested in the search function itself (see ChoseSlotInRange/judge/lower and /upper)")
+		}
+	} else if len(cands) == 0 {
 		c.Undecidedf("R4.range", "pickSuffixDfs/slot-of-candidate", dfs.Decl.Pos(), "cannot find the range predicate being asked about redis.GetSlot(candidate)")
 	} else {
 		n := 0
-		for _, p := range g.Points(func(n ast.Node) bool {
-			r, ok := n.(*ast.ReturnStmt)
-			return ok && len(r.Results) == 2 && isTrue(dinfo, r.Results[0])
-		}) {
+		for _, p := range g.Points(accepting) {
 			n++
 			r := p.Node().(*ast.ReturnStmt)
-			ret := strip(dinfo, r.Results[1])
+			ret := strip(dinfo, candOf(r))
 			same, differs := false, false
 			var cand ast.Expr
 			for _, cd := range cands {
@@ -375,7 +567,7 @@ func checkpointKey(c *core.Ctx) {
 				c.Okf("R4.range", "pickSuffixDfs/slot-of-candidate", r.Pos(), "the string returned is the one whose slot was computed (%s)", c.Src(ret))
 			case differs:
 				c.Check("R4.range", "pickSuffixDfs/slot-of-candidate", r.Pos(), false,
-					fmt.Sprintf("the string returned as checkpoint key (%s) is a different function of the candidate than the one whose slot was computed (%s): the checkpoint may live on another shard than the data it describes", c.Src(r.Results[1]), c.Src(cand)))
+					fmt.Sprintf("the string returned as checkpoint key (%s) is a different function of the candidate than the one whose slot was computed (%s): the checkpoint may live on another shard than the data it describes", c.Src(candOf(r)), c.Src(cand)))
 			default:
 				c.Undecidedf("R4.range", "pickSuffixDfs/slot-of-candidate", r.Pos(), "cannot relate the returned string %s to the candidate %s", c.Src(ret), c.Src(cand))
 			}
@@ -408,17 +600,56 @@ func checkpointKey(c *core.Ctx) {
 	finfo := filterKey.Pkg.TypesInfo
 	fg := cfgq.Of(c.Program, filterKey)
 	prefixTestOn := func(e ast.Expr, key types.Object) bool {
-		call, ok := ast.Unparen(e).(*ast.CallExpr)
-		return ok && core.IsFunc(core.CalleeFunc(finfo, call), "strings", "", "HasPrefix") && len(call.Args) == 2 &&
-			objOf(finfo, call.Args[0]) == key && core.ObjOf(finfo, call.Args[1]) == cpk
+		if call, ok := ast.Unparen(e).(*ast.CallExpr); ok {
+			return core.IsFunc(core.CalleeFunc(finfo, call), "strings", "", "HasPrefix") && len(call.Args) == 2 &&
+				objOf(finfo, call.Args[0]) == key && core.ObjOf(finfo, call.Args[1]) == cpk
+		}
+		// key[:len(CheckpointKey)] == CheckpointKey (the length test that goes with it is a separate conjunct)
+		if be, ok := ast.Unparen(e).(*ast.BinaryExpr); ok && be.Op == token.EQL {
+			for _, pr := range [][2]ast.Expr{{be.X, be.Y}, {be.Y, be.X}} {
+				se, isSl := ast.Unparen(pr[0]).(*ast.SliceExpr)
+				if !isSl || se.Low != nil || se.High == nil || objOf(finfo, se.X) != key || core.ObjOf(finfo, pr[1]) != cpk {
+					continue
+				}
+				if lc, ok := ast.Unparen(se.High).(*ast.CallExpr); ok && len(lc.Args) == 1 && core.ObjOf(finfo, lc.Args[0]) == cpk {
+					if b, isB := core.Callee(finfo, lc).(*types.Builtin); isB && b.Name() == "len" {
+						return true
+					}
+				}
+			}
+		}
+		return false
 	}
 	keyParam := types.Object(filterKey.Obj.Type().(*types.Signature).Params().At(0))
 	isPrefixTest := func(e ast.Expr) bool { return prefixTestOn(e, keyParam) }
 	// prefixFalse: the fact implies that key does NOT start with CheckpointKey,
 	// directly or because a same-package boolean helper applied to the key
 	// returns that value only when its own HasPrefix(key, CheckpointKey) is false.
+	shorter := func(e ast.Expr, key types.Object, val bool) bool { // e == val says len(key) < len(CheckpointKey)
+		be, ok := ast.Unparen(e).(*ast.BinaryExpr)
+		if !ok {
+			return false
+		}
+		isLen := func(x ast.Expr, what types.Object) bool {
+			lc, ok := strip(finfo, x).(*ast.CallExpr)
+			if !ok || len(lc.Args) != 1 {
+				return false
+			}
+			b, isB := core.Callee(finfo, lc).(*types.Builtin)
+			return isB && b.Name() == "len" && core.ObjOf(finfo, lc.Args[0]) == what
+		}
+		op := be.Op
+		switch {
+		case isLen(be.X, key) && isLen(be.Y, cpk):
+		case isLen(be.Y, key) && isLen(be.X, cpk):
+			op = map[token.Token]token.Token{token.LSS: token.GTR, token.GTR: token.LSS, token.LEQ: token.GEQ, token.GEQ: token.LEQ}[op]
+		default:
+			return false
+		}
+		return op == token.LSS && val || op == token.GEQ && !val
+	}
 	prefixFalse := func(f cfgq.Fact) bool {
-		if !f.Val && isPrefixTest(f.Expr) {
+		if !f.Val && isPrefixTest(f.Expr) || shorter(f.Expr, keyParam, f.Val) {
 			return true
 		}
 		call, ok := ast.Unparen(f.Expr).(*ast.CallExpr)
@@ -499,18 +730,18 @@ func checkpointKey(c *core.Ctx) {
 			}
 		}
 		// positive evidence only: nothing in the package tests a key against the CheckpointKey prefix
-		anyTest := false
+		anyTest := false // CheckpointKey is used by some function body of the package at all (whatever the spelling of the test)
 		for _, f := range filterKey.Pkg.Syntax {
-			ast.Inspect(f, func(n ast.Node) bool {
-				if call, ok := n.(*ast.CallExpr); ok && core.IsFunc(core.CalleeFunc(finfo, call), "strings", "", "HasPrefix") {
-					for _, a := range call.Args {
-						if core.ObjOf(finfo, a) == cpk {
+			for _, d := range f.Decls {
+				if fd, ok := d.(*ast.FuncDecl); ok && fd.Body != nil {
+					ast.Inspect(fd.Body, func(n ast.Node) bool {
+						if e, ok := n.(ast.Expr); ok && core.ObjOf(finfo, e) == cpk {
 							anyTest = true
 						}
-					}
+						return true
+					})
 				}
-				return true
-			})
+			}
 		}
 		switch {
 		case allGuarded:
@@ -519,7 +750,7 @@ func checkpointKey(c *core.Ctx) {
 			c.Undecidedf("R4.filter", "FilterKey/checkpoint-prefix-rejected", filterKey.Decl.Pos(), "cannot see FilterKey rejecting keys with prefix CheckpointKey")
 		default:
 			c.Check("R4.filter", "FilterKey/checkpoint-prefix-rejected", filterKey.Decl.Pos(), false,
-				"nothing in the filter package tests strings.HasPrefix(key, CheckpointKey): the per-shard checkpoint keys (CheckpointKey-xxxx chosen by ChoseSlotInRange) pass the key filter and are synced as user data")
+				"no function of the filter package refers to CheckpointKey, so nothing can reject keys by that prefix: the per-shard checkpoint keys (CheckpointKey-xxxx chosen by ChoseSlotInRange) pass the key filter and are synced as user data")
 		}
 	}
 	// every verdict other than "rejected" is reached only after the prefix test failed
@@ -527,6 +758,75 @@ func checkpointKey(c *core.Ctx) {
 	for _, p := range passRets {
 		k++
 		ok, w := onlyVia(fg, p, prefixFalse)
+		if !ok && found {
+			// a violation needs a path to this verdict on which the key HAS the prefix: assume
+			// the prefix test true (and the key long enough); every branch that mentions
+			// CheckpointKey must then be decided, otherwise the path proves nothing
+			atom := func(e ast.Expr) (bool, bool) {
+				if isPrefixTest(e) {
+					return true, true
+				}
+				if shorter(e, keyParam, true) {
+					return false, true
+				}
+				if shorter(e, keyParam, false) {
+					return true, true
+				}
+				return false, false
+			}
+			mentionsCK := func(e ast.Expr) bool {
+				hit := false
+				ast.Inspect(e, func(n ast.Node) bool {
+					switch x := n.(type) {
+					case ast.Expr:
+						if core.ObjOf(finfo, x) == cpk {
+							hit = true
+						}
+						if call, ok := x.(*ast.CallExpr); ok {
+							if hf := c.FnOf(core.CalleeFunc(finfo, call)); hf != nil && hf.Decl.Body != nil && hf.Obj.Pkg() == filterKey.Obj.Pkg() {
+								ast.Inspect(hf.Decl.Body, func(m ast.Node) bool {
+									if y, ok := m.(ast.Expr); ok && core.ObjOf(finfo, y) == cpk {
+										hit = true
+									}
+									return true
+								})
+							}
+						}
+					}
+					return true
+				})
+				return hit
+			}
+			tn := p.Node()
+			w = fg.Path(cfgq.Query{From: fg.Entry(), Target: func(n ast.Node) bool { return n == tn }, AvoidEdge: func(b *cfg.Block, s int) bool {
+				cnd := cfgq.CondOf(b)
+				if cnd == nil || len(b.Succs) != 2 {
+					return false
+				}
+				v, known := ring.EvalUnder(cnd, atom)
+				if known {
+					return (s == 0) != v
+				}
+				// what remains of the condition once the assumed atoms are filled in
+				var residual func(e ast.Expr) ast.Expr
+				residual = func(e ast.Expr) ast.Expr {
+					e = ast.Unparen(e)
+					if be, ok := e.(*ast.BinaryExpr); ok && (be.Op == token.LAND || be.Op == token.LOR) {
+						for _, pr := range [][2]ast.Expr{{be.X, be.Y}, {be.Y, be.X}} {
+							if pv, pk := ring.EvalUnder(pr[0], atom); pk && pv == (be.Op == token.LAND) {
+								return residual(pr[1]) // true && Y == Y, false || Y == Y
+							}
+						}
+					}
+					return e
+				}
+				return mentionsCK(residual(cnd)) // undecided and about the checkpoint key: cannot be used as evidence
+			}})
+			if w == nil {
+				c.Undecidedf("R4.filter", "FilterKey/prefix-before-pass", p.Node().Pos(), "cannot see that this verdict is reached only for keys without the CheckpointKey prefix")
+				continue
+			}
+		}
 		if ok || found {
 			c.Check("R4.filter", "FilterKey/prefix-before-pass", p.Node().Pos(), ok,
 				"FilterKey can let a key pass without first having rejected the CheckpointKey prefix: with a whitelist (or no blacklist entry) matching it, the per-shard checkpoint key is synced as user data", w...)
@@ -537,109 +837,4 @@ func checkpointKey(c *core.Ctx) {
 	if k == 0 {
 		c.Undecidedf("R4.filter", "FilterKey/prefix-before-pass", filterKey.Decl.Pos(), "FilterKey never lets a key pass")
 	}
-}
-
-func latencyKey(c *core.Ctx, crcFn *core.Fn) {
-	fn := c.Func(pkgLat, "", "findKeyInRange")
-	if fn == nil || crcFn == nil {
-		return
-	}
-	info := fn.Pkg.TypesInfo
-	var params []*ast.Ident
-	for _, f := range fn.Decl.Type.Params.List {
-		params = append(params, f.Names...)
-	}
-	// slotOf: e is `crc16(cand) <reduced>` or a same-package helper h(cand) returning that
-	var slotOf func(e ast.Expr, depth int) ast.Expr
-	slotOf = func(e ast.Expr, depth int) ast.Expr {
-		e = strip(info, e)
-		if be, ok := e.(*ast.BinaryExpr); ok {
-			for _, side := range []ast.Expr{be.X, be.Y} {
-				if call, ok := ast.Unparen(side).(*ast.CallExpr); ok && core.CalleeFunc(info, call) == crcFn.Obj && len(call.Args) == 1 {
-					return call.Args[0]
-				}
-			}
-			return nil
-		}
-		call, ok := e.(*ast.CallExpr)
-		hfn := core.CalleeFunc(info, orCallExpr(call))
-		if !ok || depth > 0 || hfn == nil || hfn.Pkg() != fn.Obj.Pkg() || len(call.Args) != 1 {
-			return nil
-		}
-		hf := c.FnOf(hfn)
-		if hf == nil || hf.Decl.Body == nil || len(hf.Decl.Body.List) != 1 {
-			return nil
-		}
-		r, isRet := hf.Decl.Body.List[0].(*ast.ReturnStmt)
-		if !isRet || len(r.Results) != 1 {
-			return nil
-		}
-		if inner := slotOf(r.Results[0], depth+1); inner != nil && objOf(info, strip(info, inner)) == types.Object(hfn.Type().(*types.Signature).Params().At(0)) {
-			return call.Args[0]
-		}
-		return nil
-	}
-	if len(params) != 2 {
-		c.Undecidedf("R5.latency", "findKeyInRange/skeleton", fn.Decl.Pos(), "expected (min, max)")
-		return
-	}
-	var cand ast.Expr
-	var slotVar *ast.Ident
-	nslot := 0
-	ast.Inspect(fn.Decl.Body, func(n ast.Node) bool {
-		if as, ok := n.(*ast.AssignStmt); ok && len(as.Lhs) == 1 && len(as.Rhs) == 1 {
-			if cd := slotOf(as.Rhs[0], 0); cd != nil {
-				if id, ok := as.Lhs[0].(*ast.Ident); ok {
-					slotVar, cand = id, cd
-					nslot++
-				}
-			}
-		}
-		return true
-	})
-	if slotVar == nil || nslot != 1 {
-		c.Undecidedf("R5.latency", "findKeyInRange/skeleton", fn.Decl.Pos(), "cannot find the variable holding the candidate's slot (crc16 of the candidate, reduced, here or in a one-line helper)")
-		return
-	}
-	g := cfgq.Of(c.Program, fn)
-	isRet := func(n ast.Node) bool { _, ok := n.(*ast.ReturnStmt); return ok }
-	for _, p := range g.Points(isRet) {
-		r := p.Node().(*ast.ReturnStmt)
-		if len(r.Results) == 1 && pat.Same(info, r.Results[0], cand) {
-			c.Okf("R5.latency", "findKeyInRange/slot-of-returned-key", r.Pos(), "the key returned is the one whose slot was tested (%s)", c.Src(cand))
-		} else {
-			c.Undecidedf("R5.latency", "findKeyInRange/slot-of-returned-key", r.Pos(), "cannot relate the returned key %s to the tested one %s", c.Src(r), c.Src(cand))
-		}
-	}
-	inclusive(c, "R5.latency", "findKeyInRange", g, fn.Decl.Body, slotVar, params[0], params[1], isRet)
-	// the synthetic key has no hash tag, so hashing the whole key is the specification's slot
-	if v, ok := fn.Pkg.Types.Scope().Lookup("keyPrefix").(*types.Var); ok {
-		for _, f := range fn.Pkg.Syntax {
-			ast.Inspect(f, func(n ast.Node) bool {
-				if vs, ok := n.(*ast.ValueSpec); ok {
-					for i, nm := range vs.Names {
-						if info.Defs[nm] == v && i < len(vs.Values) {
-							s, isC := core.StringConst(info, vs.Values[i])
-							if isC {
-								c.Check("R5.latency", "keyPrefix/no-hash-tag", vs.Pos(), !strings.ContainsAny(s, "{}"),
-									"findKeyInRange hashes the whole key; with a brace in the prefix the cluster would hash only the tag and the probe key lands on another shard")
-							}
-						}
-					}
-				}
-				return true
-			})
-		}
-	}
-}
-
-func mentions(info *types.Info, n ast.Node, o types.Object) bool {
-	hit := false
-	ast.Inspect(n, func(m ast.Node) bool {
-		if id, ok := m.(*ast.Ident); ok && info.Uses[id] == o {
-			hit = true
-		}
-		return true
-	})
-	return hit
 }
